@@ -30,6 +30,7 @@ RULES = {
     'C07.R3': 'symbolic step of the fold by cases equals the specification for each printed accumulator (tier, statistic, order)',
     'C07.R4': 'moregen / moregre are the strict lexicographic comparisons from the worst / best rank (first difference decides, equal -> False)',
     'C07.R8': 'the brute-force path never fails on an undefined name: no local is read before every binding of it, no attribute of self is read that nothing defines',
+    'C07.R9': 'under -bf Solver.solve constructs the brute-force solver on the model and runs it, and Solver.get_results returns its text',
     'C07.R5': 'profiles have one entry per rank: initial all-matchings greedy profile is [0] * (maximum rank), the length _get_profile produces',
     'C07.R6': "'Infeasible' is printed iff the size accumulator still holds its negative sentinel; otherwise all nine lines are printed",
     'C07.R7': 'initial values of the all-matchings minima dominate every attainable value (max / sum of |load - target|) on every instance',
@@ -99,8 +100,43 @@ def run(rep, repo, tier):
     comps = check_comparators(rep, repo)
     check_fold(rep, repo, f_run, table, comps)
     check_validity(rep, repo)
+    check_dispatch(rep, repo, f_run, f_res)
     from ..defined import check_defined
     check_defined(rep, repo, 'C07.R8', [repo.classes[BF].get('__init__'), f_run, f_res], 'brute-force path')
+
+
+# ---- R9 -------------------------------------------------------------------------------------------------------------
+def check_dispatch(rep, repo, f_run, f_res):
+    rule = 'C07.R9'
+    f = repo.method('Solver', 'solve')
+    g = repo.method('Solver', 'get_results')
+    def interp():
+        it = Interp(repo)
+        lp.config_heap(it, S('PC'), S('STAB'), [], bf=True)
+        it.opaque = lambda h: h.cls == BF and h.name != '__init__'
+        return it
+    try:
+        effs, _ = interp().run(f, {p_: S(p_) for p_ in f.params if p_ != 'self'})
+        it2 = interp()
+        effs2, _ = it2.run(f, {p_: S(p_) for p_ in f.params if p_ != 'self'})
+        geffs, rv = it2.run(g, {})
+    except Unknown as u:
+        rep.inconclusive(rule, f.where, 'Solver.solve / get_results under -bf are inside the interpreted fragment', got=str(u))
+        return
+    calls = [(e, ctx) for e, ctx in iter_effects(effs) if e.kind in ('call', 'callo') and getattr(e, 'target', None) is f_run]
+    uncond = [e for e, ctx in calls if not any(c_.kind in ('if', 'for', 'while') for c_, _ in ctx)]
+    rep.check(len(uncond) == 1 and len(calls) == 1, rule, f.where, 'with the brute-force option set, solve() runs the enumeration exactly once',
+              got='%d calls of %s.run (%d unconditional)' % (len(calls), BF, len(uncond)), want='self.solver.run()', construct='brute-force run not started')
+    for e, _ in calls:
+        n_args = len(getattr(e, 'args', ()) or ())
+        n_par = len([p_ for p_ in f_run.params if p_ != 'self'])
+        n_req = n_par - len(f_run.node.args.defaults)
+        rep.check(n_req <= n_args <= n_par, rule, f.where, 'the call matches the signature of %s.run' % BF, got='%d arguments' % n_args,
+                  want='%d..%d' % (n_req, n_par), construct='brute-force run called with the wrong arguments', loc=getattr(e, 'loc', None))
+    ok = contains(rv, lambda y: y[0] in ('call', 'callm', 'callo') and any(getattr(z, 'name', None) == 'get_results' and getattr(z, 'cls', None) == BF for z in y[1:] if not isinstance(z, tuple))) \
+        or any(e.kind in ('call', 'callo') and getattr(e, 'target', None) is f_res for e, _ in iter_effects(geffs))
+    rep.check(ok, rule, g.where, "with the brute-force option set, get_results() returns the brute-force solver's text", got=show(rv)[:120],
+              want='self.solver.get_results()', construct='brute-force results not returned')
 
 
 # ---- R6 + label table -----------------------------------------------------------------------------------------------
